@@ -64,6 +64,18 @@ def render_events(events, in_body):
             if a == 1 and not sents and len(ev) > 3 and ev[3] == "Ė":
                 op = "`⅛` Ė"
             out.append((pre + " " if pre else "") + op)
+        elif k == "zcall":
+            # the runtime calls a lambda with ZERO arguments: `S` on a function value applies it to the (empty) current
+            # stack; `Ḟ` with an empty seed calls its generator function with nothing
+            how, body = ev[1], ev[2]
+            lam = "λ W ⅛ " + render_events(body, True) + " 0 ;"
+            out.append(lam + " S _" if how == "S" else "⟨⟩ " + lam + " Ḟ 1 Ẏ _")
+        elif k == "reuse":
+            # one lambda object used by a reduction (called with two arguments) and later called directly with †
+            pair, call_sents, body, name = ev[1], ev[2], ev[3], ev[4]
+            lam = "λ W ⅛ " + render_events(body, True) + " 0 ;"
+            pre = lit_args(call_sents)
+            out.append(f"{lam} →{name} ⟨{lit(pair[0])}|{lit(pair[1])}⟩ ←{name} R _ " + (pre + " " if pre else "") + f"←{name} † _")
         elif k == "tilde":
             # `~"`: the modifier pops its element's two arguments WITHOUT removing them (retain_popped): on an empty stack
             # that is two implicit reads whose values stay on the stack, followed by the pair built from them
@@ -169,6 +181,30 @@ class Monitor:
                 g = minus(vals, sents, f"implicit pop of arity {a}")
                 if g:
                     scope.groups.append(g)
+            elif k == "zcall":
+                args = self.take("arguments of a lambda called with nothing")
+                if args != []:
+                    raise Mismatch("shape", f"a lambda called with zero arguments received {args}")
+                child = Scope("call", [])
+                self.calls.append(child)
+                self.walk(ev[2], child)
+            elif k == "reuse":
+                pair, call_sents, body = ev[1], ev[2], ev[3]
+                args = self.take("arguments of the reducing call")
+                if not isinstance(args, list) or sorted(map(key, args)) != sorted(map(key, pair)):
+                    raise Mismatch("shape", f"the reduction called its function with {args}, expected the pair {pair}")
+                child = Scope("call", args)
+                self.calls.append(child)
+                self.walk(body, child)
+                args2 = self.take("arguments of the later direct call")
+                if not isinstance(args2, list) or len(args2) != 1:
+                    raise Mismatch("shape", f"a lambda of declared arity 1, called with † after a reduction used it, received {args2}")
+                g = minus(args2, call_sents, "lambda arguments")
+                if g:
+                    scope.groups.append(g)
+                child2 = Scope("call", args2)
+                self.calls.append(child2)
+                self.walk(body, child2)
             elif k == "tilde":
                 v = self.take("retaining pop")
                 if not isinstance(v, list) or len(v) != 3 or not isinstance(v[2], list) or len(v[2]) != 2:
@@ -275,6 +311,7 @@ class C11(core.Check):
         "quick": dict(runs=30_000, batch=400, wall=80),
         "thorough": dict(runs=600_000, batch=800, wall=840),
     }
+    per_run_timeout = 60
     components_real = ["vyxal/helpers.py get_input, pop, wrapify, vy_eval", "vyxal/context.py", "vyxal/transpile.py lambda / "
                        "function templates", "vyxal/elements.py (? ⅛ \" ∇ W Ȯ † M Ẏ templates, vy_map, vy_filter, index)",
                        "vyxal/main.py execute_vyxal (driver B, inputs parsed from strings)", "lexer, parser"]
@@ -336,6 +373,14 @@ class C11(core.Check):
                 evs.append(["over", [sent()] if r.random() < 0.4 else []])
             elif x < 0.57:
                 evs.append(["tilde"])
+            elif x < 0.61 and depth < 2:
+                evs.append(["zcall", r.choice(["S", "Ḟ"]), self.gen_events(r, depth + 1, 0, maps, True, sent)[:2]])
+            elif x < 0.64 and depth < 1 and not in_body:
+                a_, b_ = sent(), sent()
+                while not (isinstance(a_, int) and isinstance(b_, int)):
+                    a_, b_ = sent(), sent()
+                cs = [sent()] if r.random() < 0.5 else []
+                evs.append(["reuse", [a_, b_], cs, self.gen_events(r, 2, 0, [], True, sent)[:2], "f" + "uvwxyz"[len(evs) % 6]])
             elif x < 0.72 and depth < 2:
                 arity = r.choice([None, 0, 1, 2, 3, 1, 2])
                 a = 1 if arity is None else arity
@@ -416,8 +461,24 @@ class C11(core.Check):
                 after = rf.choice(["EOF", "OSERR"])
             elif mode == "blank":
                 stdin = ["" for _ in range(rf.randint(1, 3))]
-        driver = "main" if rw.random() < 0.3 else "world"
+        driver = rw.choice(["world"] * 11 + ["main"] * 5 + ["online"] * 3 + ["repl"])
+        if driver == "online":
+            # the web interpreter's input text: one literal per line; string inputs may contain characters that some
+            # line-splitting functions treat as line ends, and the text may end with an empty last line
+            if inputs and rw.random() < 0.5:
+                j = rw.randrange(len(inputs))
+                inputs[j] = "s" + rw.choice(["\x0c", "\x0b", "\u2028", "\x85", "\x1c", "\x1e", " ", "\t"]) + str(j)
+        if driver == "repl" and n != 0:
+            driver = "world"
         case = dict(inputs=inputs, events=events, stdin=stdin, stdin_after=after, driver=driver)
+        if driver == "online" and inputs and rw.random() < 0.3:
+            case["trailing_empty"] = True
+        if driver == "repl":
+            # a REPL session: an optional earlier line that fails inside a lambda, then one line of top-level reads
+            case["events"] = [e for e in events if e[0] in ("exp", "imp", "over", "tilde")][:4] or [["imp", 1, []]]
+            case["events"] = [(e[:3] if e[0] == "imp" else e[:1] if e[0] == "exp" else e) for e in case["events"]]
+            case["repl_fault"] = rw.choice([None, None, "4 λ1 0%;†", "7 8 λ2|`a`0%;†", "@q:1|1 0%; 5 @q;", "3 ƛ1 0%;"])
+            case["stdin"], case["stdin_after"] = [], "EOF"
         if driver == "main" and inputs and rw.random() < 0.3:
             case["flag"] = rw.choice(["a", "Ṡ"])  # all inputs as one list / every input as a string
         if rw.random() < 0.35:
@@ -434,12 +495,14 @@ class C11(core.Check):
         except Exception:
             return dict(verdict=DISCARD, sig="render", log=[], steps=0, hist=None)
         log = [dict(program=text, inputs=inputs, stdin=case.get("stdin"), after=case.get("stdin_after"))]
-        if case.get("prelude"):
-            self.run_prelude(case["prelude"], case.get("driver"))
+        if case.get("prelude") and case.get("driver") != "repl":
+            self.run_prelude(case["prelude"], "main" if case.get("driver") in ("main", "online") else "world")
         del self.seam_log[:]
         outcome, steps = None, 0
         judged_stdin = not any(isinstance(x, str) for x in case.get("stdin") or [])
-        if case.get("driver") == "main":
+        if case.get("driver") == "repl":
+            return self.run_repl(case, text, log)
+        if case.get("driver") in ("main", "online"):
             main = self.m["main"]
             created = []
             Base = self.m["context"].Context
@@ -457,7 +520,11 @@ class C11(core.Check):
             try:
                 with world.rec_limit():
                     # D: string literals are raw (the only strings in these programs are code handed to Ė)
-                    main.execute_vyxal(text, "eOD" + case.get("flag", ""), [core.jdump(x) for x in inputs])
+                    if case.get("driver") == "online":
+                        lines = [core.jdump(x) for x in inputs] + ([""] if case.get("trailing_empty") else [])
+                        main.execute_vyxal(text, "eOD", "\n".join(lines), {1: "", 2: ""}, True)
+                    else:
+                        main.execute_vyxal(text, "eOD" + case.get("flag", ""), [core.jdump(x) for x in inputs])
             except world.StepBudgetExceeded:
                 outcome = "budget"
             except world.ValueTooBig:
@@ -517,6 +584,8 @@ class C11(core.Check):
 
         if not inputs and not judged_stdin:
             return dict(verdict=DISCARD, sig="stdin-has-lines", log=log, steps=steps, faults=faults, hist=None)
+        if case.get("driver") == "online" and case.get("trailing_empty"):
+            inputs = list(inputs) + [""]     # an empty last line of the input text is one more input: the empty string
         if case.get("driver") == "main" and case.get("flag") == "a":
             inputs = [list(inputs)]          # the a flag: the inputs form ONE input, a list
         elif case.get("driver") == "main" and case.get("flag") == "Ṡ":
@@ -541,6 +610,58 @@ class C11(core.Check):
         return dict(verdict=OK, sig="", log=log, steps=steps, cov=sorted(cov), faults=faults, hist=hist,
                     probes={"top_reads": ntop, "call_scopes": len(mon.calls), "deferred": sum(m["done"] for m in mon.maps.values()),
                             "wrapped_around": int(n > 0 and ntop > n), "no_inputs": int(n == 0)})
+
+    def run_repl(self, case, text, log):
+        """Driver C: vyxal.main.repl() fed from the stdin seam.  With no inputs every top-level read of the last line
+        meets EOF and must yield 0 -- whatever an earlier line of the session did."""
+        main = self.m["main"]
+        created = []
+        Base = self.m["context"].Context
+
+        class Capturing(Base):
+            def __init__(self):
+                super().__init__()
+                created.append(self)
+
+        lines = ([case["repl_fault"]] if case.get("repl_fault") else []) + [text]
+        w = world.World(inputs=[], stdin=lines, stdin_after="EOF")
+        old_ctx, old_out = main.Context, sys.stdout
+        main.Context = Capturing
+        sys.stdout = w.out
+        outcome = None
+        world.CLOCK.start(budget=STEP_BUDGET, count_string=True)
+        try:
+            with world.rec_limit():
+                main.repl()
+        except EOFError:
+            outcome = None  # the session's input is over: the normal end of a REPL
+        except world.StepBudgetExceeded:
+            outcome = "budget"
+        except SystemExit:
+            outcome = "exit"
+        except Exception as e:
+            outcome = "raised:" + type(e).__name__
+        finally:
+            steps = world.CLOCK.stop()
+            sys.stdout = old_out
+            main.Context = old_ctx
+        faults = dict(("stdin_" + k, v) for k, v in world.STDIN.faults.items())
+        log.append(dict(repl_lines=lines, outcome=outcome))
+        if outcome is not None or not created:
+            return dict(verdict=DISCARD, sig=outcome or "no-context", log=log, steps=steps, faults=faults, hist=None)
+        observed = [world.to_model(v, self.LazyList) for v in created[0].global_array]
+        log.append(dict(global_array=observed))
+        mon = Monitor([], observed)
+        try:
+            mon.walk(case["events"], mon.top)
+            ntop = mon.check()
+        except Mismatch as e:
+            sig = f"{e.clause}:repl:{'after-error' if case.get('repl_fault') else 'plain'}"
+            log.append(dict(violation=sig, detail=e.detail))
+            return dict(verdict=VIOLATION, sig=sig, log=log, steps=steps, faults=faults, hist=core.digest(case),
+                        detail=f"REPL session {lines!r}: {e.detail}")
+        return dict(verdict=OK, sig="", log=log, steps=steps, cov=["driver:repl", "repl-after-error" if case.get("repl_fault") else "repl-plain"],
+                    faults=faults, hist=core.digest(case), probes={"top_reads": ntop, "repl_sessions": 1})
 
     def run_prelude(self, prelude, driver):
         """A previous execution: fresh Context, its own inputs, r explicit reads.  It must not influence what follows."""
@@ -568,6 +689,10 @@ class C11(core.Check):
             yield ev
             if ev[0] == "lam":
                 yield from self.flat_events(ev[3])
+            elif ev[0] == "zcall":
+                yield from self.flat_events(ev[2])
+            elif ev[0] == "reuse":
+                yield from self.flat_events(ev[3])
             elif ev[0] == "fn":
                 yield from self.flat_events(ev[4])
             elif ev[0] == "map":
@@ -578,7 +703,7 @@ class C11(core.Check):
         for i in range(len(events)):
             yield events[:i] + events[i + 1:]
         for i, ev in enumerate(events):
-            idx = {"lam": 3, "fn": 4, "map": 3}.get(ev[0])
+            idx = {"lam": 3, "fn": 4, "map": 3, "zcall": 2, "reuse": 3}.get(ev[0])
             if idx is not None:
                 for sub in self.shrink_events(ev[idx]):
                     ne = list(ev)
